@@ -94,6 +94,23 @@ def setup(ck):
         return v
     am.rotation_mat2vec = rec_m2v
     e.cls = {n: getattr(am, n) for n in CLASSES}
+    # PolyAffine kernel: count calls in which the Gaussian weights of some point underflow (sum below the
+    # kernel's TINY = 1e-200 clamp), i.e. in which the kernel cannot normalise the weights as its docstring says
+    from nipy.algorithms.registration import polyaffine as pm
+    e.pm = pm
+    e.pa_unnormalised = 0
+    real_pa = pm._apply_polyaffine
+
+    def rec_pa(txyz, centers, affines, sigma):
+        x = np.asarray(txyz, dtype=float)
+        c = np.asarray(centers, dtype=float)
+        d2 = (((x[:, None, :] - c[None, :, :]) / np.asarray(sigma, dtype=float)) ** 2).sum(axis=2)
+        with np.errstate(under="ignore"):
+            W = np.exp(-0.5 * d2).sum(axis=1)
+        if np.any(W < 1e-200) or not np.all(np.isfinite(x)):
+            e.pa_unnormalised += 1
+        return real_pa(txyz, centers, affines, sigma)
+    pm._apply_polyaffine = rec_pa
     e.fx_owner = {"Affine": "Affine", "Affine2D": "Affine", "Rigid": "Rigid", "Rigid2D": "Rigid",
                   "Similarity": "Similarity", "Similarity2D": "Similarity"}
     return e
@@ -289,6 +306,7 @@ def m2v_dev(e):
 
 
 SMALL = "mat2vec-roundtrip/small-angle"
+PA_FAR = "polyaffine/weights-underflow-far-from-centers"
 
 
 def attribute(ck, e, dev, err, scale, sig, what, replay):
@@ -1025,16 +1043,21 @@ def sec_pool(ck, e, rng):
             pool.append((c, lambda q, ra=ra, rb=rb: ra(rb(q)), "(%s o %s)" % (da, db)))
             bad = None
             for k, (obj, ref, d) in enumerate(pool):
+                e.pa_unnormalised = 0
                 want = ref(x)
                 got = obj.apply(x)
                 if not close(got, want, 1e-8):
-                    bad = (k, d, maxerr(got, want), max(1.0, float(np.max(np.abs(want)))))
+                    bad = (k, d, maxerr(got, want), max(1.0, float(np.max(np.abs(want)))), e.pa_unnormalised)
                     break
             if bad is not None:
-                k, d, err, sc = bad
+                k, d, err, sc, far = bad
                 replay = {"initial": [dd for _, _, dd in pool[:len(base)]], "steps": log, "wrong_member": k, "member": d,
                           "error": err, "points": x.tolist()}
-                if k == len(pool) - 1:
+                if far:
+                    ck.fail(PA_FAR, "inside %s a PolyAffine kernel call received a point whose Gaussian weights all underflow "
+                            "(sum < 1e-200): the kernel returns a wrongly normalised value there, so the composition differs from "
+                            "the sequential application by %g" % (d, err), dict(replay, unnormalised_kernel_calls=far))
+                elif k == len(pool) - 1:
                     attribute(ck, e, devsum, err, sc * sc, "pool/composition-differs-from-sequential",
                               "step %d: %s does not map points as the sequential application (error %g)" % (st, d, err), replay)
                 else:
@@ -1046,6 +1069,7 @@ def sec_pool(ck, e, rng):
 
 
 def sec_generic(ck, e, rng):
+    from nibabel.affines import apply_affine as apply_affine_
     from nipy.algorithms.registration.transform import Transform
     from nipy.algorithms.registration.polyaffine import PolyAffine
     N = ck.n(10, 60)
@@ -1088,6 +1112,28 @@ def sec_generic(ck, e, rng):
             ck.fail("polyaffine/compose-changes-local-affines", "compose changed the local affines", rp)
         if not close(P.compose(tg).apply(x), P.apply(g(x)), 1e-8):
             ck.fail("polyaffine/compose-callable", "PolyAffine.compose(Transform(g)) wrong", rp)
+        # normalised weights: T(x) = sum_i w_i(x) T_i x with sum_i w_i = 1, so T(x) lies in the bounding box of the
+        # T_i x - also far away from every centre (distance 12, 25, 45 sigma)
+        for far in (12.0, 25.0, 45.0):
+            u = rng.normal(size=3)
+            xf = (centers[0] + u / np.linalg.norm(u) * far * sigma)[None, :]
+            each = np.array([apply_affine_(t.as_affine(), xf)[0] for t in locs])
+            got = P.apply(xf)[0]
+            lo, hi = each.min(axis=0), each.max(axis=0)
+            slack = 1e-9 * max(1.0, float(np.max(np.abs(each))))
+            ck.count(("polyaffine-far", i, far), bucket="polyaffine:far%d" % int(far))
+            if not (np.all(got >= lo - slack) and np.all(got <= hi + slack)):
+                rpf = dict(rp, point=xf[0].tolist(), distance_in_sigma=far, result=got.tolist(), local_images=each.tolist())
+                if far >= 30:
+                    ck.fail(PA_FAR, "PolyAffine.apply maps a point %g sigma away from every centre to %s, outside the range %s..%s of the "
+                            "local affines' images (all Gaussian weights underflow; the kernel divides by TINY)" % (far, got.tolist(), lo.tolist(), hi.tolist()), rpf)
+                else:
+                    ck.fail("polyaffine/not-a-convex-combination", "PolyAffine.apply(x) outside the range of the local affines' images at %g sigma" % far, rpf)
+            # and the composition laws hold there too
+            e.pa_unnormalised = 0
+            if not close(bP.apply(xf), b.apply(P.apply(xf)), 1e-8):
+                ck.fail(PA_FAR if e.pa_unnormalised else "polyaffine/left_compose", "b.compose(PolyAffine).apply(x) != b(P(x)) at %g sigma from the centres" % far,
+                        dict(rp, point=xf[0].tolist(), distance_in_sigma=far))
     ck.section("generic", cases=N)
 
 
